@@ -188,6 +188,13 @@ class HStruct:
         self.n, self.fields, self.fresh = n, dict(fields), fresh
 
 
+class HViewList:
+    """python list (symbolic length) of contiguous views of one base array: view k = base[off[k] : off[k]+ln[k]]"""
+
+    def __init__(self, n, base, off, ln, fresh=True):
+        self.n, self.base, self.off, self.ln, self.fresh = n, base, off, ln, fresh
+
+
 class State:
     __slots__ = ("env", "heap", "pc", "prov", "path", "out", "ghost", "dead")
 
